@@ -1705,6 +1705,20 @@ class SpaceUpdater(SharedSpaceOperations):
         for n in nx.descendants(self._graph, node):
             self._graph.get_mro(n)
 
+        # Check name conflict between spaces, cells, refs of the bases
+        members = {"spaces": set(), "cells": set(),
+                   "own_refs": set(refs) if refs else set()}
+        for sname in self._graph.get_mro(node)[1:]:
+            b = self._graph.to_space(sname)
+            for attr in members:
+                members[attr] |= set(getattr(b, attr).keys())
+
+        conflict = set()
+        for a, b in itertools.combinations(members.values(), 2):
+            conflict |= a & b
+        if conflict:
+            raise NameError("name conflict: %s" % conflict)
+
         if container is None:
             container = parent._named_spaces
 
